@@ -37,6 +37,11 @@ if [ "$1" = "C08" ]; then
   VERIF_TIER=$2 timeout 1200 go test -race -count=1 ./racetest/ -run TestC08 > bin/c08race.log 2>&1
   export VERIF_C08_RACE="$(pwd)/bin/c08race.log"
 fi
+if [ "$1" = "C11" ]; then
+  # supplementary free-running pass: concurrent decoding under the race detector
+  timeout 900 go test -race -count=1 ./racetest/ -run TestC11 > bin/c11race.log 2>&1
+  export VERIF_C11_RACE="$(pwd)/bin/c11race.log"
+fi
 if [ "$1" = "C15" ]; then
   go build -trimpath -o bin/verifa ./cmd/verifa || { echo "BUILD-ERROR: verifa" >&2; exit 2; }
   exec ./bin/verifa "$@"
